@@ -83,7 +83,8 @@ def run_c16(tier, seed):
     for _ in range(8 if tier == "quick" else 80):
         for n in (2, 4, 8):
             add([[("SET", [b"big%d" % i, bytes([65 + i]) * 8192 + b"#%d" % i]), ("GET", [b"big%d" % i])] for i in range(n)], "%d clients SET / GET their own key with an 8 KB value" % n)
-            add([[("SET", [b"shared", bytes([97 + i]) * 5000]), ("GET", [b"shared"])] for i in range(n)], "%d clients SET / GET a shared key with 5 KB values" % n)
+            if n <= 4:
+                add([[("SET", [b"shared", bytes([97 + i]) * 5000]), ("GET", [b"shared"])] for i in range(n)], "%d clients SET / GET a shared key with 5 KB values" % n)
     # random short histories over 1..3 keys by 2..8 clients
     for _ in range(1500 if tier == "quick" else 30000):
         keys = [b"k1", b"k2", b"k3"][:rng.randint(1, 3)]
@@ -128,6 +129,25 @@ def run_c16(tier, seed):
             chk.violation("history-incomplete", "%d operations sent, %d observed :: %s" % (nsent, len(ops), c["desc"]), dict(case=c["line"], desc=c["desc"]))
             continue
         c["ops"] = ops
+        # a read never observes a value nobody wrote (cheap necessary condition, decided before the search): for keys that are only SET and
+        # read in this history, every bulk reply to GET is the argument of some SET of that key
+        written, touched_otherwise = {}, set()
+        for (_, (nm, a_), _, _, _) in ops:
+            if nm == "SET":
+                written.setdefault(a_[0], set()).add(a_[1])
+            elif nm != "GET":
+                touched_otherwise.update(a_[:1] if nm not in ("MSETNX", "MGET") else a_)
+        ghost = None
+        for (ci_, (nm, a_), rep, _, _) in ops:
+            if nm == "GET" and a_[0] not in touched_otherwise and rep.startswith(b"$") and not rep.startswith(b"$-1"):
+                val = rep.split(b"\r\n", 1)[1][:-2]
+                if val not in written.get(a_[0], set()):
+                    ghost = (ci_, a_[0], val)
+                    break
+        if ghost:
+            chk.violation("read-of-unwritten-value", "client %d read from key %r a value (%d bytes, %r...) that no client wrote to that key :: %s" % (ghost[0], ghost[1], len(ghost[2]), ghost[2][:24], c["desc"]),
+                          dict(case=c["line"], desc=c["desc"]))
+            continue
         if any(a_[3] < b_[4] and b_[3] < a_[4] for x, a_ in enumerate(ops) for b_ in ops[x + 1:] if a_[0] != b_[0]):
             overlap += 1
         hist_lines.append(";".join("%s|%s|%d|%d" % (L.hx(RB(*rq)), L.hx(rep), inv, resp) for (_, rq, rep, inv, resp) in ops))
